@@ -238,6 +238,15 @@ func (e *env) ev(x ast.Expr, hint types.Type) Val {
 				src = e.cur
 				nb, ok = src.names[n.Name]
 			}
+			if !ok && e.u.ct != nil && e.u.ct.aliases != nil {
+				if nn, renamed := e.u.ct.aliases[n.Name]; renamed {
+					nb, ok = src.names[nn]
+					if !ok && e.cur != nil {
+						src = e.cur
+						nb, ok = src.names[nn]
+					}
+				}
+			}
 			if !ok {
 				// inside an inlined callee: the callers' variables, innermost first
 				fs := e.st
